@@ -54,7 +54,7 @@ class Continue(Exception):
 
 def default_cfg(c):
     """default configuration: every cargo feature on, not wasm32, not test"""
-    return eval_cfg(c, lambda f: True)
+    return eval_cfg(c, lambda f: f not in ("lsp", "_build-parser"))
 
 
 def default_cfg_all(node):
@@ -333,6 +333,14 @@ class Interp:
             return int(v)
         if isinstance(v, int) and ty in ("f64", "f32"):
             return float(v)
+        bits = {"i8": (8, True), "u8": (8, False), "i16": (16, True), "u16": (16, False), "i32": (32, True), "u32": (32, False),
+                "i64": (64, True), "u64": (64, False), "isize": (64, True), "usize": (64, False), "i128": (128, True), "u128": (128, False)}.get(ty)
+        if bits and isinstance(v, int):
+            n, signed = bits
+            w = v % (1 << n)          # `as` between integer types truncates / reinterprets (two's complement)
+            if signed and w >= (1 << (n - 1)):
+                w -= (1 << n)
+            return Wire(w) if isinstance(v, Wire) else w
         return v
 
     def e_bin(self, e):
@@ -545,6 +553,10 @@ class Interp:
         f = e["f"]
         fname = f.get("p") if f["k"] == "path" else None
         args = [self.eval(a) for a in e["a"]]
+        if fname and "::" not in fname:
+            lv = self.lookup(fname)
+            if isinstance(lv, dict) and lv.get("k") == "closure":
+                return self.call_closure(lv, args)
         if fname in ("Some", "Ok", "Err"):
             return (fname, args[0] if args else ("tuple", []))
         if self.on_call:
@@ -738,6 +750,28 @@ class Interp:
             return recv
         if m == "abs" and num:
             return abs(recv)
+        if m == "then_some" and isinstance(recv, bool) and args:
+            return ("Some", args[0]) if recv else ("None",)
+        if m == "then" and isinstance(recv, bool) and args and isinstance(args[0], dict):
+            return ("Some", self.call_closure(args[0], [])) if recv else ("None",)
+        if m == "checked_neg" and num and isinstance(recv, int):
+            return ("None",) if recv == -2**63 else ("Some", -recv)   # 64-bit signed receiver assumed
+        if m == "checked_abs" and num and isinstance(recv, int):
+            return ("None",) if recv == -2**63 else ("Some", abs(recv))
+        if m in ("checked_add", "checked_sub", "checked_mul") and num and args and isinstance(args[0], int):
+            r = {"checked_add": recv + args[0], "checked_sub": recv - args[0], "checked_mul": recv * args[0]}[m]
+            return ("Some", r) if -2**63 <= r < 2**64 else ("None",)
+        if m in ("strip_prefix", "strip_suffix") and isinstance(recv, tuple) and recv[:1] == ("str",) and args and isinstance(args[0], tuple) and args[0][:1] == ("str",):
+            pre = args[0][1]
+            if m == "strip_prefix":
+                return ("Some", ("str", recv[1][len(pre):])) if recv[1].startswith(pre) else ("None",)
+            return ("Some", ("str", recv[1][:-len(pre)])) if recv[1].endswith(pre) else ("None",)
+        if m in ("starts_with", "ends_with", "contains") and isinstance(recv, tuple) and recv[:1] == ("str",) and args and isinstance(args[0], tuple) and args[0][:1] == ("str",):
+            return {"starts_with": recv[1].startswith(args[0][1]), "ends_with": recv[1].endswith(args[0][1]), "contains": args[0][1] in recv[1]}[m]
+        if m == "is_empty" and isinstance(recv, tuple) and recv[:1] == ("str",):
+            return recv[1] == ""
+        if m in ("trim", "trim_start", "trim_end") and isinstance(recv, tuple) and recv[:1] == ("str",):
+            return ("str", {"trim": recv[1].strip(), "trim_start": recv[1].lstrip(), "trim_end": recv[1].rstrip()}[m])
         if m == "is_negative" and num:
             return recv < 0
         if m == "is_positive" and num:
